@@ -3,7 +3,7 @@
    the invariant across the pop (exit) step and the panic conditions of with_settings are
    covered by the correspondence check only. *)
 From Coq Require Import ZArith List.
-From BS Require Import Word BumpSpec ChunkSpec Arena ArenaInv ArenaExt ArenaMisc.
+From BS Require Import Word BumpSpec ChunkSpec Arena ArenaInv ArenaExt ArenaMisc ArenaInv2.
 Import ListNotations.
 Open Scope Z_scope.
 
@@ -46,7 +46,16 @@ Theorem C18_allocations_keep_position_aligned :
   inv c (fst (step c s0 (OAlloc h ws size align zeroed) r)).
 Proof. exact step_inv_alloc. Qed.
 
+(* leaving aligned::<N>: all earlier data intact (the whole invariant holds again under the outer
+   alignment), whichever chunk is current by then *)
+Theorem C18_exit_keeps_invariant :
+  forall c s0 r inner outer rest,
+  cfg_ok c -> inv c s0 -> aligns s0 = inner :: outer :: rest -> valid_min_align outer ->
+  inv c (fst (step c s0 (OAlignPop true) r)).
+Proof. exact step_inv_align_pop. Qed.
+
 Print Assumptions C18_enter_aligns_and_keeps_blocks.
+Print Assumptions C18_exit_keeps_invariant.
 Print Assumptions C18_exit_realigns.
 Print Assumptions C18_scoped_aligned_exit_exact.
 Print Assumptions C18_allocations_keep_position_aligned.
